@@ -55,7 +55,7 @@ class G:
         if d >= self.maxdepth:
             k = r.below(3)
         else:
-            k = r.below(24)
+            k = r.below(25)
         if k == 0 or (k == 1 and not vis):
             return self.lit()
         if k == 1 or k == 2:
@@ -117,6 +117,8 @@ class G:
             return "@[" + " ".join(self.expr(vis, d + 1, infn, inloop) for _ in range(r.range(0, 4))) + "]"
         if k <= 22 and self.closures:
             return self.fn(vis, d)
+        if k == 24 and self.closures and infn and d <= 1 and r.chance(2, 3):
+            return self.escape(vis, d, infn, inloop)
         return self.call(vis, d, infn, inloop)
 
     def call(self, vis, d, infn, inloop):
@@ -161,6 +163,103 @@ class G:
         if vis:
             self.feats.add("fn-may-capture")
         return "(fn %s[%s] %s)" % (head, " ".join(ps), self.body(inner, d + 1, True, False, r.range(0, 3)))
+
+    def escape(self, vis, d, infn, inloop):
+        """closures that escape from 2-4 nested NON-loop scopes (do / if + do / else branch + do / upscope + do), capturing
+        defs and vars defined at every level (read, set), stored in an array or a var of the enclosing scope; after the nest
+        has closed the enclosing scope defines 1-4 more locals (and evaluates calls that need temporaries), then calls the
+        closures and reads the later locals.  The registers of the captured locals must stay reserved up to the function scope,
+        so the later locals' registers (every instruction word after the nest) depend on popscope forwarding the pairs."""
+        r = self.r
+        self.feats.add("escape")
+
+        def new():
+            self.n += 1
+            return "v%d" % self.n
+
+        def small(v):
+            return self.expr(v, self.maxdepth, infn, inloop)
+
+        def val(v):
+            return small(v) if r.chance(2, 3) else self.expr(v, max(d + 2, self.maxdepth - 1), infn, inloop)
+        g = new()
+        store = r.choice(["array", "array", "var"])
+        self.feats.add("escape-" + store)
+        levels = r.range(2, 4)
+        out = ["(def %s @[])" % g if store == "array" else "(var %s nil)" % g]
+        vis.append((g, store == "var"))
+        call = (lambda: "((first %s))" % g) if store == "array" else (lambda: "(%s)" % g)
+
+        def closure(caps):
+            body = []
+            for nm, mut in caps:
+                if mut and r.chance(1, 2):
+                    body.append("(set %s (inc %s))" % (nm, nm))
+                elif r.chance(2, 3):
+                    body.append(nm)
+            body.append(caps[-1][0])
+            if r.chance(1, 3):
+                body[-1] = "[%s]" % " ".join(c[0] for c in caps)
+            return "(fn [] %s)" % " ".join(body)
+
+        def stored(caps):
+            return ("(array/push %s %s)" if store == "array" else "(set %s %s)") % (g, closure(caps))
+
+        def later(v, k):
+            o = []
+            names = []
+            for _ in range(k):
+                c = r.below(6)
+                if c < 4:
+                    nm = new()
+                    e = val(v)
+                    o.append("(%s %s %s)" % ("def" if c < 2 else "var", nm, e))
+                    v.append((nm, c >= 2))
+                    names.append(nm)
+                else:
+                    o.append(self.call(v, self.maxdepth - 1, infn, inloop))
+            o.append(call())
+            if names:
+                o.append("[%s]" % " ".join(names) if r.chance(1, 2) else "(tuple %s %s)" % (call(), " ".join(names)))
+            return o
+
+        def level(l, v, caps, sdepth):
+            kind = r.choice(["do", "if-do", "if-else", "upscope-do", "do-do"])
+            self.feats.add("escape-" + kind)
+            here = sdepth + (1 if kind in ("do", "upscope-do") else 2)
+            v = list(v)
+            caps = list(caps)
+            b = []
+            for _ in range(r.range(1, 2) if l == levels else r.range(0, 2)):
+                nm = new()
+                mut = r.chance(1, 2)
+                b.append("(%s %s %s)" % ("var" if mut else "def", nm, val(v)))
+                v.append((nm, mut))
+                caps.append((nm, mut))
+            if r.chance(1, 4):
+                b.append(small(v))
+            if l == levels:
+                b.append(stored(caps))
+            else:
+                if caps and here >= 2 and r.chance(1, 3):
+                    b.append(stored(caps))
+                b.append(level(l + 1, v, caps, here))
+                if r.chance(1, 3):
+                    b += later(v, r.range(1, 2))
+            blk = "(do %s)" % " ".join(b)
+            c = val(v) if not r.chance(1, 4) else r.choice(["true", "false", "nil", ":k"])
+            if kind == "do":
+                return blk
+            if kind == "do-do":
+                return "(do %s %s)" % (small(v), blk) if r.chance(1, 2) else "(do %s)" % blk
+            if kind == "upscope-do":
+                return "(upscope %s)" % blk
+            if kind == "if-do":
+                return "(if %s %s)" % (c, blk) if r.chance(1, 2) else "(if %s %s %s)" % (c, blk, small(v))
+            return "(if %s %s %s)" % (c, small(v), blk)
+        out.append(level(1, vis, [], 0))
+        out += later(vis, r.range(1, 4))
+        return "(upscope %s)" % " ".join(out)
 
     def body(self, vis, d, infn, inloop, n):
         return " ".join(self.expr(vis, d, infn, inloop) for _ in range(n))
